@@ -10,7 +10,7 @@
        clause-ordered, for pipelines of any length.
    The resolver and the rest of the back end are tied by the end-to-end oracle, not by proof. *)
 From Coq Require Import List ZArith QArith NArith Bool Permutation.
-From PV Require Import Model.Rel Proofs.RelFacts Model.SplitBase Gen.GenSplit Proofs.SplitProofs Proofs.Theta2 Proofs.Theta2c Proofs.SegmentSound Proofs.SegmentDistinct.
+From PV Require Import Model.Rel Proofs.RelFacts Model.SplitBase Gen.GenSplit Proofs.SplitProofs Proofs.Theta2 Proofs.Theta2c Proofs.SegmentSound Proofs.SegmentDistinct Model.SelectPluck Proofs.PluckSound.
 Import ListNotations.
 
 (* ---- (c) table obligation on what anchor.rs says NOW ---- *)
@@ -152,6 +152,30 @@ Theorem c01_only_sorts_before_join : forall (row : Type) a t b j,
 Proof. exact SegmentDistinct.only_sorts_before_join. Qed.
 Print Assumptions c01_only_sorts_before_join.
 
+(* ---- (b') the CODE's clause assembly.  Model/SelectPluck.v mirrors translate_select_pipeline's plucking (which conditions
+   go to WHERE / HAVING, the first Aggregate behind the break, the LAST Sort, all Takes, DISTINCT) and is compared field by field
+   with every real call (hook 7400a50).  Read as SQL clauses, what it plucks is the SELECT Theta-2 assembles: *)
+Theorem c01_pluck_is_assemble : forall (row : Type) (eqb : row -> row -> bool)
+  (p : list (SelectPluck.pt (row -> bool) (Theta2.cmp row) (Theta2.agg row) Theta2.range unit)),
+  SelectPluck.supported _ _ _ _ _ p = true -> SelectPluck.one_agg _ _ _ _ _ p = true -> SelectPluck.sorts_behind_agg _ _ _ _ _ p = true ->
+  forall base, PluckSound.sem_clauses row eqb (SelectPluck.pluck _ _ _ _ _ p) base =
+               SegmentDistinct.sem_select_d row eqb (SegmentSound.assemble row (SegmentDistinct.strip row (PluckSound.to_trd row p)))
+                 (SegmentDistinct.has_d row (PluckSound.to_trd row p)) base.
+Proof. exact PluckSound.pluck_is_assemble. Qed.
+Print Assumptions c01_pluck_is_assemble.
+
+(* ... hence a clause-ordered atomic pipeline is translated into a SELECT that returns what the pipeline returns transform by
+   transform.  (From / Join / Select carry no clause of their own; DISTINCT ON, set operations and loops are outside Theta-2.) *)
+Theorem c01_pluck_sound : forall (row : Type) (eqb : row -> row -> bool), (forall x y, eqb x y = true <-> x = y) ->
+  forall p : list (SelectPluck.pt (row -> bool) (Theta2.cmp row) (Theta2.agg row) Theta2.range unit),
+  SelectPluck.supported _ _ _ _ _ p = true -> SelectPluck.sorts_behind_agg _ _ _ _ _ p = true ->
+  Forall (SegmentDistinct.good_d row) (PluckSound.to_trd row p) ->
+  clause_ordered (map (SegmentDistinct.kind_d row) (PluckSound.to_trd row p)) = true ->
+  SelectPluck.one_agg _ _ _ _ _ p = true ->
+  forall base, PluckSound.sem_clauses row eqb (SelectPluck.pluck _ _ _ _ _ p) base = SegmentDistinct.run_d row eqb (PluckSound.to_trd row p) base.
+Proof. exact PluckSound.pluck_sound. Qed.
+Print Assumptions c01_pluck_sound.
+
 (* ---- (a) the edge cases the property names, as facts of the reference semantics ---- *)
 Theorem c01_agg_one_row : forall cols l, length (Rel.apply (TAggregate cols) l) = 1%nat.
 Proof. exact agg_one_row. Qed.
@@ -172,6 +196,11 @@ Proof. reflexivity. Qed.
 Example c01_ex_segment : clause_ordered [KFrom; KJoin; KFilter; KCompute; KComputeAgg; KAggregate; KFilter; KSort; KTake; KTake] = true.
 Proof. vm_compute. reflexivity. Qed.
 Example c01_ex_bad_segment : clause_ordered [KFrom; KTake; KFilter] = false.
+Proof. vm_compute. reflexivity. Qed.
+(* the code's plucking on a concrete pipeline: WHERE [1], GROUP BY 3, HAVING [4], ORDER BY the last sort, both takes *)
+Example c01_ex_pluck :
+  SelectPluck.pluck nat nat nat nat nat [QSelect; QFrom; QFilter 1%nat; QSort 2%nat; QAggregate 3%nat; QFilter 4%nat; QSort 5%nat; QTake 6%nat; QSort 5%nat; QTake 7%nat]
+  = SelectPluck.mkClauses nat nat nat nat nat [1%nat] (Some 3%nat) [4%nat] (Some 5%nat) [6%nat; 7%nat] false [].
 Proof. vm_compute. reflexivity. Qed.
 (* a concrete segment with DISTINCT meeting the hypotheses of c01_clause_ordered_segment_distinct_sound, and its value *)
 Example c01_ex_distinct_segment :
